@@ -406,8 +406,10 @@ theorem updateClient_post (a : AEAD) (s : NetcodeServer) (id : Nat) : PostE s.cl
   · split
     · trivial
     · exact hdis none
-    · exact hdis (some _)
-  · apply postE_bind
+    · rename_i out _
+      exact hdis (some out)
+  · generalize (durAdd client1.lastPacketSendTime C.NETCODE_SEND_RATE_NS "server.rs update_client: last_packet_send_time + SEND_RATE" : Res Empty Nat) = x
+    apply postE_bind
     intro due _
     split
     · split
@@ -507,5 +509,227 @@ theorem generatePayloadPacket_ids {a : AEAD} {s s' : NetcodeServer} {id : Nat} {
     | err e => rw [he] at h; cases h
     | panic m => rw [he] at h; cases h
   · cases h
+
+/-! ## Part 2 : `handle_server_result` and the lock-step relation -/
+
+theorem contains_insert {α : Type} (m : SMap α) (k j : Nat) (v : α) :
+    SMap.contains (SMap.insert m k v) j = true ↔ j = k ∨ SMap.contains m j = true := by
+  unfold SMap.contains
+  by_cases e : j = k
+  · subst e; simp [SL.SMap.find?_insert_self]
+  · simp [SL.SMap.find?_insert_ne _ _ _ _ e, e]
+
+theorem contains_erase {α : Type} (m : SMap α) (hs : SL.SMap.Sorted m) (k j : Nat) :
+    SMap.contains (SMap.erase m k) j = true ↔ j ≠ k ∧ SMap.contains m j = true := by
+  unfold SMap.contains
+  by_cases e : j = k
+  · subst e; simp [SL.SMap.find?_erase_self _ _ hs]
+  · simp [SL.SMap.find?_erase_ne _ _ _ e, e]
+
+theorem contains_of_find {α : Type} {m : SMap α} {k : Nat} {v : α} (h : SMap.find? m k = some v) :
+    SMap.contains m k = true := by simp [SMap.contains, h]
+
+theorem find_of_contains {α : Type} {m : SMap α} {k : Nat} (h : SMap.contains m k = true) :
+    ∃ v, SMap.find? m k = some v := by
+  unfold SMap.contains at h
+  cases hf : SMap.find? m k with
+  | none => rw [hf] at h; cases h
+  | some v => exact ⟨v, rfl⟩
+
+/-- **Lock-step.**  The renet connection table and the netcode slot table hold the same client ids
+    (`sync`); both tables are keyed without repetition (`nodup`: the ids in the slots are pairwise distinct,
+    `sorted`: the `HashMap` keys of renet, modelled as a strictly ascending association list). -/
+structure LockStep (g : ServerGlue) : Prop where
+  nodup : g.netcode.clientsId.Nodup
+  sorted : SL.SMap.Sorted g.renet.conns
+  sync : ∀ id, SMap.contains g.renet.conns id = true ↔ id ∈ g.netcode.clientsId
+
+/-- no connection of the renet table is in the disconnected state (`disconnections_id()` is empty) -/
+def NoDead (rs : Server) : Prop := ∀ id c, SMap.find? rs.conns id = some c → c.isDisconnected = false
+
+/-- the `RenetServer` calls `handle_server_result` makes for a netcode result -/
+def opOf : ServerResult → List SL.SrvOp
+  | .payload id p => [.processPacketFrom p id]
+  | .clientConnected id _ _ _ => [.add id]
+  | .clientDisconnected id _ _ => [.remove id]
+  | .none => []
+  | .packetToSend _ _ => []
+
+/-- the datagrams `handle_server_result` hands to `send_to` for a netcode result -/
+def dgOf : ServerResult → List Dgram
+  | .packetToSend addr p => [(addr, p)]
+  | .clientConnected _ addr _ p => [(addr, p)]
+  | .clientDisconnected _ addr (some p) => [(addr, p)]
+  | .clientDisconnected _ _ none => []
+  | .payload _ _ => []
+  | .none => []
+
+/-- the event `handle_server_result` makes renet push for a netcode result while the tables are in lock-step -/
+def evOf (rs : Server) : ServerResult → List Event
+  | .clientConnected id _ _ _ => [.connected id]
+  | .clientDisconnected id _ _ =>
+    [.disconnected id (((SMap.find? rs.conns id).bind (·.disconnectReason)).getD .transport)]
+  | .payload _ _ => []
+  | .none => []
+  | .packetToSend _ _ => []
+
+/-- kind and id of an event / of a netcode result that is reported to the application -/
+def evKey : Event → Bool × Nat
+  | .connected id => (true, id)
+  | .disconnected id _ => (false, id)
+
+def resKey : ServerResult → Option (Bool × Nat)
+  | .clientConnected id _ _ _ => some (true, id)
+  | .clientDisconnected id _ _ => some (false, id)
+  | .payload _ _ => none
+  | .none => none
+  | .packetToSend _ _ => none
+
+theorem evOf_key (rs : Server) (r : ServerResult) : (evOf rs r).map evKey = (resKey r).toList := by
+  cases r <;> rfl
+
+theorem runSrv_single {st st' : SL.SrvState} {op : SL.SrvOp} (h : op.apply st = .ok st') :
+    SL.runSrv st [op] = .ok st' := by
+  simp [SL.runSrv, h]
+
+/-- `handle_server_result` = the renet calls `opOf r` + the datagrams `dgOf r` -/
+theorem handle_factor {r : ServerResult} {rs rs' : Server} {out out' : Array Dgram}
+    (h : handleServerResult r rs out = .ok (rs', out')) (popped : List Event) :
+    SL.runSrv (rs, popped) (opOf r) = .ok (rs', popped) ∧ out'.toList = out.toList ++ dgOf r := by
+  cases r with
+  | none => cases h; exact ⟨rfl, by simp [dgOf]⟩
+  | packetToSend addr p => cases h; exact ⟨rfl, by simp [dgOf]⟩
+  | payload id p =>
+    simp only [handleServerResult] at h
+    cases hp : rs.processPacketFrom p id with
+    | ok x =>
+      obtain ⟨rs1, ok⟩ := x
+      rw [hp] at h
+      simp only [Res.bind_ok, Res.pure_eq, Res.ok.injEq, Prod.mk.injEq] at h
+      obtain ⟨h1, h2⟩ := h
+      subst h1; subst h2
+      refine ⟨runSrv_single ?_, by simp [dgOf]⟩
+      simp [SL.SrvOp.apply, hp, SL.Res.stateOf, SL.keepPopped]
+    | err e => exact e.elim
+    | panic m => rw [hp] at h; cases h
+  | clientConnected id addr ud p =>
+    cases h
+    exact ⟨runSrv_single rfl, by simp [dgOf]⟩
+  | clientDisconnected id addr p =>
+    cases p with
+    | none => cases h; exact ⟨runSrv_single rfl, by simp [dgOf]⟩
+    | some p => cases h; exact ⟨runSrv_single rfl, by simp [dgOf]⟩
+
+/-- the renet state after `handle_server_result`, case by case -/
+theorem handle_renet {r : ServerResult} {rs rs' : Server} {out out' : Array Dgram}
+    (h : handleServerResult r rs out = .ok (rs', out')) :
+    match r with
+    | .payload id p => ∃ ok, rs.processPacketFrom p id = .ok (rs', ok)
+    | .clientConnected id _ _ _ => rs' = rs.addConnection id
+    | .clientDisconnected id _ _ => rs' = rs.removeConnection id
+    | .none => rs' = rs
+    | .packetToSend _ _ => rs' = rs := by
+  cases r with
+  | none => cases h; rfl
+  | packetToSend addr p => cases h; rfl
+  | payload id p =>
+    simp only [handleServerResult] at h
+    cases hp : rs.processPacketFrom p id with
+    | ok x =>
+      obtain ⟨rs1, ok⟩ := x
+      rw [hp] at h
+      simp only [Res.bind_ok, Res.pure_eq, Res.ok.injEq, Prod.mk.injEq] at h
+      exact ⟨ok, by rw [h.1]⟩
+    | err e => exact e.elim
+    | panic m => rw [hp] at h; cases h
+  | clientConnected id addr ud p => cases h; rfl
+  | clientDisconnected id addr p =>
+    cases p with
+    | none => cases h; rfl
+    | some p => cases h; rfl
+
+/-- **the combined step**: a netcode call whose table effect is `TStep cl cl' r`, followed by
+    `handle_server_result r`, keeps the two tables in bijection and pushes exactly the event `evOf rs r` -/
+theorem handle_sync {cl cl' : Slots} {r : ServerResult} {rs rs' : Server} {out out' : Array Dgram}
+    (ht : TStep cl cl' r) (hn : (ids cl).Nodup) (hs : SL.SMap.Sorted rs.conns)
+    (hy : ∀ id, SMap.contains rs.conns id = true ↔ id ∈ ids cl)
+    (h : handleServerResult r rs out = .ok (rs', out')) :
+    (ids cl').Nodup ∧ SL.SMap.Sorted rs'.conns ∧ (∀ id, SMap.contains rs'.conns id = true ↔ id ∈ ids cl') ∧
+    rs'.events = rs.events ++ evOf rs r := by
+  have hr := handle_renet h
+  cases r with
+  | none =>
+    simp only at hr; subst hr
+    simp only [TStep] at ht
+    rw [ht]; exact ⟨hn, hs, hy, by simp [evOf]⟩
+  | packetToSend addr p =>
+    simp only at hr; subst hr
+    simp only [TStep] at ht
+    rw [ht]; exact ⟨hn, hs, hy, by simp [evOf]⟩
+  | payload id p =>
+    simp only at hr
+    obtain ⟨ok, hp⟩ := hr
+    obtain ⟨ad, q, _⟩ := SL.Server.processPacketFrom_spec hp
+    simp only [TStep] at ht
+    rw [ht.1]
+    exact ⟨hn, q.sorted hs, fun j => by rw [q.contains j]; exact hy j, by simp [evOf, ad.events]⟩
+  | clientConnected id addr ud p =>
+    simp only at hr; subst hr
+    simp only [TStep] at ht
+    obtain ⟨hnot, l1, l2, e1, e2⟩ := ht
+    have hnc : SMap.contains rs.conns id = false := by
+      cases hc : SMap.contains rs.conns id with
+      | false => rfl
+      | true => exact absurd ((hy id).mp hc) hnot
+    rw [e1] at hn hnot hy
+    rw [e2]
+    unfold Server.addConnection
+    rw [hnc]
+    simp only [Bool.false_eq_true, if_false]
+    refine ⟨by grind [List.nodup_append, List.nodup_cons], SL.SMap.sorted_insert _ _ _ hs, fun j => ?_, by simp [evOf]⟩
+    rw [contains_insert, hy j]
+    simp only [List.mem_append, List.mem_cons]
+    constructor
+    · rintro (h1 | h1 | h1)
+      · exact Or.inr (Or.inl h1)
+      · exact Or.inl h1
+      · exact Or.inr (Or.inr h1)
+    · rintro (h1 | h1 | h1)
+      · exact Or.inr (Or.inl h1)
+      · exact Or.inl h1
+      · exact Or.inr (Or.inr h1)
+  | clientDisconnected id addr p =>
+    simp only at hr; subst hr
+    simp only [TStep] at ht
+    obtain ⟨l1, l2, e1, e2⟩ := ht
+    have hc : SMap.contains rs.conns id = true := (hy id).mpr (by rw [e1]; simp)
+    obtain ⟨c, hf⟩ := find_of_contains hc
+    rw [e1] at hn hy
+    rw [e2]
+    have hnn : (l1 ++ l2).Nodup ∧ id ∉ l1 ++ l2 := by grind [List.nodup_append, List.nodup_cons]
+    unfold Server.removeConnection
+    rw [hf]
+    refine ⟨hnn.1, SL.SMap.sorted_erase _ _ hs, fun j => ?_, by simp [evOf, hf]⟩
+    show SMap.contains (SMap.erase rs.conns id) j = true ↔ _
+    rw [contains_erase _ hs, hy j]
+    simp only [List.mem_append, List.mem_cons]
+    constructor
+    · rintro ⟨hne, h1 | h1 | h1⟩
+      · exact Or.inl h1
+      · exact absurd h1 hne
+      · exact Or.inr h1
+    · intro h1
+      refine ⟨?_, ?_⟩
+      · intro e; subst e; exact hnn.2 (List.mem_append.mpr h1)
+      · rcases h1 with h1 | h1
+        · exact Or.inl h1
+        · exact Or.inr (Or.inr h1)
+
+theorem lockStep_handle {g : ServerGlue} {ns' : NetcodeServer} {r : ServerResult} {rs' : Server}
+    {out out' : Array Dgram} (hl : LockStep g) (ht : TStep g.netcode.clients ns'.clients r)
+    (h : handleServerResult r g.renet out = .ok (rs', out')) :
+    LockStep { netcode := ns', renet := rs' } ∧ rs'.events = g.renet.events ++ evOf g.renet r := by
+  obtain ⟨h1, h2, h3, h4⟩ := handle_sync ht hl.nodup hl.sorted hl.sync h
+  exact ⟨⟨h1, h2, h3⟩, h4⟩
 
 end RenetVerif.GI
